@@ -115,6 +115,9 @@ class Run:
         self.known_printed: list[str] = []
         self.harness_errors: list[str] = []
         self.inconclusive: list[str] = []
+        if REPLAYS.exists():
+            for old in REPLAYS.glob(f"{pid}-*.json"):
+                old.unlink()
 
     def violation(self, replay_path, text: str = ""):
         print(f"VIOLATION property={self.pid} replay={replay_path}" + (f"  # {text}" if text else ""), flush=True)
